@@ -328,7 +328,12 @@ def stage_ruleset(case: Dict[str, Any]) -> Dict[str, str]:
     try:
         problems = hmm_detection.check_options(options)
         if problems:
-            return {"ruleset": json.dumps({"rejected": sorted(problems)})}
+            # the messages print a Python set of the unknown names: the text of a refusal is not a result,
+            # the names are compared as a sorted list
+            def canon(message: str) -> str:
+                return re.sub(r"\{([^{}]*)\}", lambda m: "{" + ", ".join(sorted(x.strip() for x in m.group(1).split(","))) + "}",
+                              message)
+            return {"ruleset": json.dumps({"rejected": sorted(canon(p) for p in problems)})}
         hmm_detection.get_ruleset.cache_clear() if hasattr(hmm_detection.get_ruleset, "cache_clear") else None
         ruleset = hmm_detection.get_ruleset(options)
         return {"ruleset": json.dumps([rule.name for rule in ruleset.rules]),
@@ -337,8 +342,120 @@ def stage_ruleset(case: Dict[str, Any]) -> Dict[str, str]:
         destroy_config()
 
 
+# ----------------------------------------------------------------------------- area formation, directly
+
+AREA_PRODUCTS = ["NRPS", "RiPP-like", "T1PKS", "lanthipeptide", "terpene"]     # sorted by code point
+AREA_CATEGORIES = ["NRPS", "RiPP", "PKS", "RiPP", "terpene"]
+_OPTIONS: List[Any] = []
+
+
+def html_options() -> Any:
+    """a default configuration, enough for outputs.html.js.convert_regions"""
+    if not _OPTIONS:
+        from antismash.config import build_config, update_config
+        from antismash.main import get_all_modules
+        options = build_config([], isolated=True, modules=get_all_modules())
+        update_config({"all_enabled_modules": []})
+        _OPTIONS.append(options)
+    return _OPTIONS[0]
+
+
+def _span(start: int, end: int, length: int) -> Any:
+    from antismash.common.secmet.locations import CompoundLocation, FeatureLocation
+    if start < end:
+        return FeatureLocation(start, end, 1)
+    return CompoundLocation([FeatureLocation(start, length, 1), FeatureLocation(0, end, 1)])
+
+
+def build_areas(case: Dict[str, Any], between: Any = None) -> Any:
+    """{"len":n,"circ":bool,"genes":[[start,end,[product,…]],…],"ps":[[product,core start,core end,neighbourhood],…],
+        "subs":[[start,end],…]}: a record with core genes, the protoclusters added in the listed order (each a
+       fresh object), then create_candidate_clusters() and create_regions().  A core start > core end spans
+       the origin.  Returns (record, protoclusters in creation order, genes)."""
+    from antismash.common.secmet.features import Protocluster, SubRegion
+    from antismash.common.secmet.qualifiers.gene_functions import GeneFunction
+    from antismash.common.secmet.test.helpers import DummyCDS, DummyRecord
+    length = case["len"]
+    circ = case["circ"]
+    record = DummyRecord(seq="ACGT" * (length // 4) + "A" * (length % 4), circular=circ, record_id="rec1")
+    genes = []
+    for i, (start, end, products) in enumerate(case["genes"]):
+        cds = DummyCDS(start, end, locus_tag=f"cds{i}")
+        for product in products:
+            cds.gene_functions.add(GeneFunction.CORE, "demo", "profile", AREA_PRODUCTS[product])
+        record.add_cds_feature(cds)
+        genes.append(cds)
+    protos = []
+    for product, core_start, core_end, nb in case["ps"]:
+        if between:
+            between()
+        core = _span(core_start, core_end, length)
+        if circ:
+            start, end = (core_start - nb) % length, (core_end + nb) % length
+        else:
+            start, end = max(0, core_start - nb), min(length, core_end + nb)
+        proto = Protocluster(core, _span(start, end, length), tool="demo", product=AREA_PRODUCTS[product], cutoff=1,
+                             neighbourhood_range=nb, detection_rule=AREA_PRODUCTS[product],
+                             product_category=AREA_CATEGORIES[product])
+        record.add_protocluster(proto)
+        protos.append(proto)
+    for start, end in case.get("subs", []):
+        if between:
+            between()
+        record.add_subregion(SubRegion(_span(start, end, length), tool="demo", label="s"))
+    record.create_candidate_clusters()
+    record.create_regions()
+    return record, protos, genes
+
+
+def areas_texts(record: Any, protos: List[Any]) -> Dict[str, str]:
+    """raw texts of everything numbered / ordered from the candidate clusters and regions"""
+    from Bio import SeqIO
+    from antismash.common import json as ajson, serialiser
+    index = {id(p): i for i, p in enumerate(protos)}
+    cands = record.get_candidate_clusters()
+    out = {"candidates": json.dumps([[c.get_candidate_cluster_number(), str(c.kind), str(c.location), list(c.products),
+                                      [index[id(p)] for p in c.protoclusters]] for c in cands])}
+    out["regions"] = json.dumps([[str(r.location), list(r.products),
+                                  [c.get_candidate_cluster_number() for c in r.candidate_clusters],
+                                  [index[id(p)] for p in r.get_unique_protoclusters()],
+                                  [str(s.location) for s in r.subregions]] for r in record.get_regions()])
+    out["areas_json"] = ajson.dumps(serialiser.gather_record_areas(record))
+    bio = record.to_biopython()
+    bio.annotations["date"] = "01-JAN-2000"
+    handle = io.StringIO()
+    SeqIO.write([bio], handle, "genbank")
+    out["genbank_features"] = _DATE.sub("DD-MMM-YYYY", handle.getvalue().split("ORIGIN")[0])
+    return out
+
+
+def stage_formation(case: Dict[str, Any]) -> Dict[str, str]:
+    try:
+        record, protos, _ = build_areas(case, lambda: perturb_heap(len(_KEEP) % 7 + 1))
+    except Exception as exc:  # pylint: disable=broad-except
+        return {"candidates": _err(exc)}
+    _KEEP.append(record)
+    if len(_KEEP) > 20000:
+        del _KEEP[:10000]
+    out = areas_texts(record, protos)
+    # the HTML output's regions.js data (strings in sets: needs different hash seeds, i.e. the children)
+    try:
+        from antismash.outputs.html import js
+        record.record_index = 1
+        regions = js.convert_regions(record, html_options(), {})
+        out["js_regions"] = json.dumps([[r["idx"], r["type"], r["products"], sorted(r["product_categories"]), r["cssClass"],
+                                         [c.get("product") for row in r["clusters"] for c in (row if isinstance(row, list) else [row])
+                                          if isinstance(c, dict)]] for r in regions], default=str)
+        out["js_product_categories"] = json.dumps([r["product_categories"] for r in regions])
+    except Exception as exc:  # pylint: disable=broad-except
+        out["js_regions"] = _err(exc)
+        if os.environ.get("C17_TRACE"):
+            out["js_trace"] = traceback.format_exc()[-1200:]
+    return out
+
+
 STAGES = {"refine": stage_refine, "hmmer": stage_hmmer, "filter": stage_filter, "pipeline": stage_pipeline,
-          "region": stage_region, "ruleset": stage_ruleset}
+          "region": stage_region, "ruleset": stage_ruleset, "formation": stage_formation}
 
 
 def main() -> None:
